@@ -285,9 +285,9 @@ var (
 	Blur              = regexp.MustCompile(`^blur\([0-9]+px\)$`)
 	BrightnessCont    = regexp.MustCompile(`^(brightness|contrast)\([0-9]+\%\)$`)
 	Count             = regexp.MustCompile(`^[0-9]+[\.]?[0-9]*$`)
-	CubicBezier       = regexp.MustCompile(`^cubic-bezier\(([ ]*(0(.[0-9]+)?|1(.0)?),){3}[ ]*(0(.[0-9]+)?|1)\)$`)
+	CubicBezier       = regexp.MustCompile(`^cubic-bezier\(([ ]*(0(\.[0-9]+)?|1(\.0)?),){3}[ ]*(0(\.[0-9]+)?|1)\)$`)
 	Digits            = regexp.MustCompile(`^digits [2-4]$`)
-	DropShadow        = regexp.MustCompile(`drop-shadow\(([-]?[0-9]+px) ([-]?[0-9]+px)( [-]?[0-9]+px)?( ([-]?[0-9]+px))?`)
+	DropShadow        = regexp.MustCompile(`^drop-shadow\(([-]?[0-9]+px) ([-]?[0-9]+px)( [-]?[0-9]+px)?( ([-]?[0-9]+px))?`)
 	Font              = regexp.MustCompile(`^('[a-z \-]+'|[a-z \-]+)$`)
 	Grayscale         = regexp.MustCompile(`^grayscale\(([0-9]{1,2}|100)%\)$`)
 	GridTemplateAreas = regexp.MustCompile(`^['"]?[a-z ]+['"]?$`)
@@ -303,9 +303,9 @@ var (
 	Numeric           = regexp.MustCompile(`^[0-9]+$`)
 	NumericDecimal    = regexp.MustCompile(`^[0-9\.]+$`)
 	Opactiy           = regexp.MustCompile(`^opacity\(([0-9]{1,2}|100)%\)$`)
-	Perspective       = regexp.MustCompile(`perspective\(`)
+	Perspective       = regexp.MustCompile(`^perspective\(`)
 	Position          = regexp.MustCompile(`^[\-]*[0-9]+[cm|mm|in|px|pt|pc\%]* [[\-]*[0-9]+[cm|mm|in|px|pt|pc\%]*]*$`)
-	Opacity           = regexp.MustCompile(`^(0[.]?[0-9]*)|(1.0)$`)
+	Opacity           = regexp.MustCompile(`^((0[.]?[0-9]*)|(1\.0))$`)
 	QuotedAlpha       = regexp.MustCompile(`^["'][a-z]+["']$`)
 	Quotes            = regexp.MustCompile(`^([ ]*["'][\x{0022}\x{0027}\x{2039}\x{2039}\x{203A}\x{00AB}\x{00BB}\x{2018}\x{2019}\x{201C}-\x{201E}]["'] ["'][\x{0022}\x{0027}\x{2039}\x{2039}\x{203A}\x{00AB}\x{00BB}\x{2018}\x{2019}\x{201C}-\x{201E}]["'])+$`)
 	Rect              = regexp.MustCompile(`^rect\([0-9]+px,[ ]*[0-9]+px,[ ]*[0-9]+px,[ ]*[0-9]+px\)$`)
@@ -315,13 +315,13 @@ var (
 	Rotate3D          = regexp.MustCompile(`^rotate3d\(([ ]?(1(\.0)?|0\.[0-9]+),){3}([12]?|3[0-5][0-9]|360)\)$`)
 	Saturate          = regexp.MustCompile(`^saturate\([0-9]+%\)$`)
 	Sepia             = regexp.MustCompile(`^sepia\(([0-9]{1,2}|100)%\)$`)
-	Skew              = regexp.MustCompile(`skew(x|y)?\(`)
+	Skew              = regexp.MustCompile(`^skew(x|y)?\(`)
 	Span              = regexp.MustCompile(`^span [0-9]+$`)
 	Steps             = regexp.MustCompile(`^steps\([ ]*[0-9]+([ ]*,[ ]*(start|end)?)\)$`)
 	Time              = regexp.MustCompile(`^[0-9]+[\.]?[0-9]*(s|ms)?$`)
 	TransitionProp    = regexp.MustCompile(`^([a-zA-Z]+,[ ]?)*[a-zA-Z]+$`)
-	TranslateScale    = regexp.MustCompile(`(translate|translate3d|translatex|translatey|translatez|scale|scale3d|scalex|scaley|scalez)\(`)
-	URL               = regexp.MustCompile(`^url\([\"\']?((https|http)[a-z0-9\.\\/_:]+[\"\']?)\)$`)
+	TranslateScale    = regexp.MustCompile(`^(translate|translate3d|translatex|translatey|translatez|scale|scale3d|scalex|scaley|scalez)\(`)
+	URL               = regexp.MustCompile(`^url\([\"\']?((https|http)://[a-z0-9\./_:]+[\"\']?)\)$`)
 	ZIndex            = regexp.MustCompile(`^[\-]?[0-9]+$`)
 )
 
@@ -1019,7 +1019,7 @@ func FilterHandler(value string) bool {
 	if BrightnessCont.MatchString(value) {
 		return true
 	}
-	if DropShadow.MatchString(value) {
+	if m := DropShadow.FindString(value); m != "" && value == m+")" {
 		return true
 	}
 	colorValue := strings.TrimSuffix(string(DropShadow.ReplaceAll([]byte(value), []byte{})), ")")
@@ -1661,7 +1661,7 @@ func PerspectiveOriginHandler(value string) bool {
 	splitVals := strings.Split(value, " ")
 	xValues := []string{"left", "center", "right"}
 	yValues := []string{"top", "center", "bottom"}
-	if len(splitVals) > 1 {
+	if len(splitVals) == 2 {
 		if !in([]string{splitVals[0]}, xValues) && !LengthHandler(splitVals[0]) {
 			return false
 		}
@@ -1886,7 +1886,7 @@ func TransformOriginHandler(value string) bool {
 	splitVals := strings.Split(value, " ")
 	xValues := []string{"left", "center", "right"}
 	yValues := []string{"top", "center", "bottom"}
-	if len(splitVals) > 2 {
+	if len(splitVals) == 3 {
 		if !in([]string{splitVals[0]}, xValues) && !LengthHandler(splitVals[0]) {
 			return false
 		}
@@ -1894,7 +1894,7 @@ func TransformOriginHandler(value string) bool {
 			return false
 		}
 		return LengthHandler(splitVals[2])
-	} else if len(splitVals) > 1 {
+	} else if len(splitVals) == 2 {
 		if !in([]string{splitVals[0]}, xValues) && !LengthHandler(splitVals[0]) {
 			return false
 		}
